@@ -5,17 +5,39 @@ import (
 )
 
 // gctx is what the generator knows about the place a form is written at. vb/vg: block names / go tags
-// lexically visible. R/G: the subset slip's body loops deliver an exit to from here (mirror of
-// coq/C07/Spec.v gd; only used to steer the generation, the guard itself is computed in Coq).
+// lexically visible (the guard of coq/C07/Spec.v admits exactly the exits to these; it is only mirrored
+// here to steer the generation, the guard itself is computed in Coq). fwd: the visible tags a go may jump
+// to without a risk of looping for ever (tags written after the current statement of their body); a go to
+// any other tag is generated as (when (< vX k) (setq vX (+ vX 1)) (go T)), so that every program ends.
 type gctx struct {
-	vb, vg, R, G []int64
-	pb           bool
-	held         []int64
-	dyn          []int64 // blocks of the callers (visible to InBlock, not lexically) - function bodies only
+	vb, vg, fwd []int64
+	held        []int64
+	dyn         []int64 // blocks of the callers (visible to InBlock, not lexically) - function bodies only
+	dynG        []int64 // tags of the callers (reachable through the inherited TagBody flag) - function bodies only
+}
+
+func has(xs []int64, x int64) bool {
+	for _, y := range xs {
+		if y == x {
+			return true
+		}
+	}
+	return false
+}
+
+// goTo is (go t), behind a counter test unless t is known to be ahead
+func (g *gen) goTo(c gctx, t int64, lexical bool) *Form {
+	if lexical && has(c.fwd, t) {
+		return &Form{K: "Go", N: t}
+	}
+	g.backGo = true
+	x := int64(g.rng.Intn(2))
+	return &Form{K: "When", C: &Form{K: "Lt", N: x, Z: int64(1 + g.rng.Intn(3))},
+		A: []*Form{{K: "Incf", N: x}, {K: "Go", N: t}}}
 }
 
 var kinds = []string{"block", "tagbody", "unwind", "mutex", "ignore", "recover", "file", "let", "letinit",
-	"progn", "when", "whentest", "cond", "condtest", "dolist", "dotimes", "do", "loopres", "list", "lam", "callu",
+	"progn", "when", "whentest", "unless", "unlesstest", "if", "iftest", "cond", "condtest", "dolist", "dotimes", "do", "loopres", "list", "lam", "callu",
 	"unwindcleanup", "recoverh", "retval"}
 
 type gen struct {
@@ -35,6 +57,7 @@ type gen struct {
 	forceExit string
 	usedKinds []string
 	exitKind  string
+	backGo    bool // some go is a backward / dynamic one (behind a counter test)
 }
 
 func (g *gen) tr() *Form { g.nextK++; return &Form{K: "Tr", N: g.nextK} }
@@ -83,9 +106,7 @@ func (g *gen) leaf(c gctx, kind string) *Form {
 	switch kind {
 	case "return":
 		cands := c.vb
-		if g.safe {
-			cands = c.R
-		} else if len(c.dyn) > 0 && g.rng.Chance(50) {
+		if !g.safe && len(c.dyn) > 0 && g.rng.Chance(50) {
 			cands = c.dyn
 		}
 		var t int64
@@ -122,10 +143,12 @@ func (g *gen) leaf(c gctx, kind string) *Form {
 		return &Form{K: "ReturnFrom", N: t, C: val}
 	case "go":
 		cands := c.vg
-		if g.safe {
-			cands = c.G
+		if !g.safe && len(c.dynG) > 0 && g.rng.Chance(50) {
+			// a tag of a caller: the call may be made from anywhere, so always behind the counter test
+			g.exitKind = "go-dynamic"
+			return g.goTo(c, c.dynG[g.rng.Intn(len(c.dynG))], false)
 		}
-		if len(cands) == 0 {
+		if len(cands) == 0 || (!g.safe && g.rng.Chance(4)) {
 			if !g.safe && g.rng.Chance(30) {
 				g.exitKind = "go-unknown"
 				return &Form{K: "Go", N: 45}
@@ -133,9 +156,9 @@ func (g *gen) leaf(c gctx, kind string) *Form {
 			return g.leaf(c, common.Pick(g.rng, []string{"normal", "error", "return"}))
 		}
 		if g.forceExit != "" || g.rng.Chance(40) {
-			return &Form{K: "Go", N: cands[len(cands)-1]}
+			return g.goTo(c, cands[len(cands)-1], true)
 		}
-		return &Form{K: "Go", N: cands[g.rng.Intn(len(cands))]}
+		return g.goTo(c, cands[g.rng.Intn(len(cands))], true)
 	case "error":
 		return &Form{K: "Signal", N: int64(g.rng.Intn(len(classes)))}
 	}
@@ -192,34 +215,23 @@ func (g *gen) body(n, p, d int, at func(i int) gctx) []*Form {
 	return out
 }
 
-func noExit(c gctx) gctx { c.R, c.G = nil, nil; return c }
-
-// progn-like positions: only the last one hands an exit on
-func prognAt(c gctx, n int, pb bool) func(int) gctx {
-	return func(i int) gctx {
-		x := c
-		x.pb = pb
-		if i < n-1 {
-			x = noExit(x)
-		}
-		return x
-	}
-}
+// every position of every form hands an exit on since repo_fixes/C07-1 .. C07-21
+func same(c gctx) func(int) gctx { return func(int) gctx { return c } }
 
 func (g *gen) freshTags(n int) []int64 {
 	out := make([]int64, n)
 	for i := range out {
 		g.nextTag++
 		out[i] = g.nextTag
-		if !g.safe && g.rng.Chance(4) {
+		if g.rng.Chance(12) {
 			out[i] = 50 + g.nextTag // a symbol tag
 		}
 	}
 	return out
 }
 
-// statements of a tagbody-like body: tags interleaved; statement i may go to the tags after it.
-// mk(i, tagsAfter) is the context of statement i.
+// statements of a tagbody-like body: tags interleaved; every statement sees all the tags of the body, those
+// after it are the ones it may go to unconditionally. mk(tagsAfter, own) is the context of a statement.
 func (g *gen) itemsBody(d int, c gctx, mk func(tagsAfter []int64, own []int64) gctx) []Item {
 	nst := g.pickN()
 	p := g.pickPos(nst)
@@ -232,8 +244,8 @@ func (g *gen) itemsBody(d int, c gctx, mk func(tagsAfter []int64, own []int64) g
 	slots := make([]int, ntags)
 	for j := range slots {
 		slots[j] = g.rng.Intn(nst + 1)
-		if g.safe || g.rng.Chance(70) {
-			// mostly after the spine statement, so that a forward go exists; often right after it
+		if g.rng.Chance(55) {
+			// after the spine statement, so that a forward go exists; often right after it
 			slots[j] = p + 1 + g.rng.Intn(nst-p)
 			if g.rng.Chance(40) {
 				slots[j] = p + 1
@@ -282,6 +294,17 @@ func (g *gen) itemsBody(d int, c gctx, mk func(tagsAfter []int64, own []int64) g
 	return items
 }
 
+// without2 removes every element of ys from xs (an inner tag of the same name shadows the outer one)
+func without2(xs, ys []int64) []int64 {
+	var out []int64
+	for _, x := range xs {
+		if !has(ys, x) {
+			out = append(out, x)
+		}
+	}
+	return out
+}
+
 func without(xs []int64, x int64) []int64 {
 	var out []int64
 	for _, y := range xs {
@@ -316,19 +339,13 @@ func (g *gen) spine(d int, c gctx) *Form {
 			}
 		}
 		n := g.pickN()
-		at := func(i int) gctx {
-			x := c
-			x.vb, x.R, x.pb = cp(c.vb, t), cp(c.R, t), true
-			if i < n-1 {
-				x.G = nil
-			}
-			return x
-		}
-		return &Form{K: "Block", N: t, A: g.body(n, g.pickPos(n), d-1, at)}
+		x := c
+		x.vb = cp(c.vb, t)
+		return &Form{K: "Block", N: t, A: g.body(n, g.pickPos(n), d-1, same(x))}
 	case "tagbody":
 		items := g.itemsBody(d-1, c, func(after, own []int64) gctx {
 			x := c
-			x.vg, x.R, x.G, x.pb = cp(c.vg, own...), nil, after, false
+			x.vg, x.fwd = cp(c.vg, own...), cp(without2(c.fwd, own), after...)
 			return x
 		})
 		return &Form{K: "Tagbody", Items: items}
@@ -353,7 +370,7 @@ func (g *gen) spine(d int, c gctx) *Form {
 		if g.rng.Chance(30) {
 			prot = g.leaf(c, common.Pick(g.rng, []string{"return", "go", "error"}))
 		}
-		return &Form{K: "UnwindProtect", Z: u, C: prot, A: g.body(n, g.pickPos(n), d-1, func(int) gctx { return noExit(c) })}
+		return &Form{K: "UnwindProtect", Z: u, C: prot, A: g.body(n, g.pickPos(n), d-1, same(c))}
 	case "mutex":
 		m := int64(g.rng.Intn(3))
 		for try := 0; try < 5; try++ {
@@ -369,10 +386,10 @@ func (g *gen) spine(d int, c gctx) *Form {
 		n := g.pickN()
 		c2 := c
 		c2.held = cp(c.held, m)
-		return &Form{K: "WithMutex", N: m, A: g.body(n, g.pickPos(n), d-1, prognAt(c2, n, c.pb))}
+		return &Form{K: "WithMutex", N: m, A: g.body(n, g.pickPos(n), d-1, same(c2))}
 	case "ignore":
 		n := g.pickN()
-		return &Form{K: "IgnoreErrors", A: g.body(n, g.pickPos(n), d-1, prognAt(c, n, c.pb))}
+		return &Form{K: "IgnoreErrors", A: g.body(n, g.pickPos(n), d-1, same(c))}
 	case "recover", "recoverh":
 		n := g.pickN()
 		if k == "recover" {
@@ -380,10 +397,9 @@ func (g *gen) spine(d int, c gctx) *Form {
 			if g.rng.Chance(20) {
 				h = &Form{K: "Const", Lit: "int", Z: 77}
 			}
-			return &Form{K: "Recover", C: h, A: g.body(n, g.pickPos(n), d-1, prognAt(c, n, c.pb))}
+			return &Form{K: "Recover", C: h, A: g.body(n, g.pickPos(n), d-1, same(c))}
 		}
 		ch := c
-		ch.pb = false
 		body := []*Form{g.filler(), &Form{K: "Signal", N: int64(g.rng.Intn(len(classes)))}}
 		if g.rng.Chance(30) {
 			body = []*Form{g.filler()}
@@ -391,27 +407,46 @@ func (g *gen) spine(d int, c gctx) *Form {
 		return &Form{K: "Recover", C: g.spine(d-1, ch), A: body}
 	case "file":
 		n := g.pickN()
-		return &Form{K: "WithFile", N: int64(g.rng.Intn(3)), A: g.body(n, g.pickPos(n), d-1, prognAt(c, n, false))}
+		return &Form{K: "WithFile", N: int64(g.rng.Intn(3)), A: g.body(n, g.pickPos(n), d-1, same(c))}
 	case "let":
 		n := g.pickN()
 		var inits []*Form
 		for i := g.rng.Intn(3); i > 0; i-- {
 			inits = append(inits, g.filler())
 		}
-		at := func(int) gctx { x := c; x.pb = false; return x }
-		return &Form{K: "Let", A: inits, B: g.body(n, g.pickPos(n), d-1, at)}
+		return &Form{K: "Let", A: inits, B: g.body(n, g.pickPos(n), d-1, same(c))}
 	case "letinit":
 		n := g.pickN()
-		inits := g.body(n, g.pickPos(n), d-1, func(int) gctx { return noExit(c) })
+		inits := g.body(n, g.pickPos(n), d-1, same(c))
 		return &Form{K: "Let", A: inits, B: []*Form{g.filler(), g.filler()}}
 	case "progn":
 		n := g.pickN()
-		return &Form{K: "Progn", A: g.body(n, g.pickPos(n), d-1, prognAt(c, n, c.pb))}
+		return &Form{K: "Progn", A: g.body(n, g.pickPos(n), d-1, same(c))}
 	case "when":
 		n := g.pickN()
-		return &Form{K: "When", C: g.test(), A: g.body(n, g.pickPos(n), d-1, prognAt(c, n, c.pb))}
+		return &Form{K: "When", C: g.test(), A: g.body(n, g.pickPos(n), d-1, same(c))}
 	case "whentest":
-		return &Form{K: "When", C: g.spine(d-1, noExit(c)), A: []*Form{g.filler(), g.filler()}}
+		return &Form{K: "When", C: g.spine(d-1, c), A: []*Form{g.filler(), g.filler()}}
+	case "unless":
+		n := g.pickN()
+		t := g.test()
+		if t.K == "Const" && g.rng.Chance(85) {
+			t = &Form{K: "Const", Lit: "nil"} // the body runs
+		}
+		return &Form{K: "Unless", C: t, A: g.body(n, g.pickPos(n), d-1, same(c))}
+	case "unlesstest":
+		return &Form{K: "Unless", C: g.spine(d-1, c), A: []*Form{g.filler(), g.filler()}}
+	case "if":
+		// the spine continues in the branch that is taken (mostly)
+		t := g.test()
+		sp := g.spine(d-1, c)
+		other := g.filler()
+		if (t.K == "Const" && t.Lit == "nil") || (t.K != "Const" && g.rng.Bool()) {
+			return &Form{K: "If", C: t, A: []*Form{other, sp}}
+		}
+		return &Form{K: "If", C: t, A: []*Form{sp, other}}
+	case "iftest":
+		return &Form{K: "If", C: g.spine(d-1, c), A: []*Form{g.filler(), g.filler()}}
 	case "cond", "condtest":
 		ncl := 1 + g.rng.Intn(3)
 		pc := g.rng.Intn(ncl)
@@ -421,12 +456,15 @@ func (g *gen) spine(d int, c gctx) *Form {
 			if i == pc {
 				if k == "cond" {
 					n := g.pickN()
-					cl[i].Body = g.body(n, g.pickPos(n), d-1, prognAt(c, n, c.pb))
+					cl[i].Body = g.body(n, g.pickPos(n), d-1, same(c))
 					if g.rng.Chance(70) {
 						cl[i].Test = &Form{K: "Const", Lit: "t"}
 					}
 				} else {
-					cl[i].Test = g.spine(d-1, noExit(c))
+					cl[i].Test = g.spine(d-1, c)
+					if g.rng.Chance(25) {
+						cl[i].Body = nil // a clause without forms yields the value of its test
+					}
 				}
 			}
 		}
@@ -438,12 +476,7 @@ func (g *gen) spine(d int, c gctx) *Form {
 		}
 		mk := func(after, own []int64) gctx {
 			x := c
-			x.vb, x.vg, x.pb = cp(c.vb, 0), cp(c.vg, own...), true
-			x.R = cp(c.R, 0)
-			if k == "do" && !c.pb {
-				x.R = []int64{0}
-			}
-			x.G = after
+			x.vb, x.vg, x.fwd = cp(c.vb, 0), cp(c.vg, own...), cp(without2(c.fwd, own), after...)
 			return x
 		}
 		items := g.itemsBody(d-1, c, mk)
@@ -461,39 +494,32 @@ func (g *gen) spine(d int, c gctx) *Form {
 		return &Form{K: "Loop", Kind: k, N: cnt, Items: items, C: res}
 	case "loopres":
 		// the spine goes through the result form of a loop
-		cr := noExit(c)
-		cr.vb, cr.pb = cp(c.vb, 0), true
+		cr := c
+		cr.vb = cp(c.vb, 0)
 		cnt := int64(g.rng.Intn(3))
 		items := []Item{{F: g.tr()}}
 		if g.rng.Bool() {
 			return &Form{K: "Loop", Kind: common.Pick(g.rng, []string{"dolist", "dotimes"}), N: cnt, Items: items, C: g.spine(d-1, cr)}
 		}
 		n := g.pickN()
-		return &Form{K: "Do", N: cnt, Items: items, A: g.body(n, g.pickPos(n), d-1, func(int) gctx { return cr })}
+		return &Form{K: "Do", N: cnt, Items: items, A: g.body(n, g.pickPos(n), d-1, same(cr))}
 	case "list":
 		n := g.pickN()
-		return &Form{K: "CallList", A: g.body(n, g.pickPos(n), d-1, func(int) gctx { return noExit(c) })}
+		return &Form{K: "CallList", A: g.body(n, g.pickPos(n), d-1, same(c))}
 	case "retval":
 		// the spine goes through the value form of a return-from
 		cands := c.vb
-		if g.safe {
-			cands = c.R
-		}
 		if len(cands) == 0 {
 			return g.spine(d, c)
 		}
-		return &Form{K: "ReturnFrom", N: cands[g.rng.Intn(len(cands))], C: g.spine(d-1, noExit(c))}
+		t := cands[g.rng.Intn(len(cands))]
+		if has(cands, 0) && g.rng.Chance(35) {
+			return &Form{K: "Return", C: g.spine(d-1, c)} // return.go is a file of its own
+		}
+		return &Form{K: "ReturnFrom", N: t, C: g.spine(d-1, c)}
 	case "lam":
 		n := g.pickN()
-		at := func(i int) gctx {
-			x := c
-			x.pb = true
-			if i < n-1 {
-				x.G = nil
-			}
-			return x
-		}
-		return &Form{K: "Lam", A: g.body(n, g.pickPos(n), d-1, at)}
+		return &Form{K: "Lam", A: g.body(n, g.pickPos(n), d-1, same(c))}
 	case "callu":
 		// a new user function whose body continues the spine
 		n := g.pickN()
@@ -502,12 +528,12 @@ func (g *gen) spine(d int, c gctx) *Form {
 		// body refers to its own block through a placeholder that is patched afterwards
 		g.nextPh--
 		placeholder := g.nextPh
-		fc := gctx{vb: []int64{placeholder}, R: []int64{placeholder}, pb: true, held: c.held}
+		fc := gctx{vb: []int64{placeholder}, held: c.held}
 		if !g.safe {
 			fc.dyn = c.vb
-			fc.vg = nil
+			fc.dynG = c.vg
 		}
-		body := g.body(n, g.pickPos(n), d-1, func(int) gctx { return fc })
+		body := g.body(n, g.pickPos(n), d-1, same(fc))
 		idx = len(g.defs)
 		g.defs = append(g.defs, body)
 		for _, b := range g.defs {
